@@ -191,6 +191,15 @@ pub fn binding(_cex: &Value) -> Result<String, String> {
                 if seen.len() == 1 && seen[0].2 != "EdDSA" {
                   log.push(format!("{tag}: verifier got alg {}", seen[0].2));
                 }
+                // a compact token is taken as received: no blank stripped in front of / behind it
+                if ser == Ser::Compact {
+                  for (pre, post) in [(" ", ""), ("", " "), ("\n", ""), ("", "\n"), ("\r", ""), ("\t", "\t"), ("\x0c", ""), ("", "\r\n")] {
+                    let padded = format!("{pre}{token}{post}");
+                    if decode_verify(ser, padded.as_bytes(), det, &k).is_ok() {
+                      log.push(format!("{tag}: verified with blanks around the compact token ({pre:?} / {post:?})"));
+                    }
+                  }
+                }
                 // wrong key
                 if decode_verify(ser, token.as_bytes(), det, &other).is_ok() {
                   log.push(format!("{tag}: verified under another key"));
@@ -820,5 +829,32 @@ pub fn charset(_cex: &Value) -> Result<String, String> {
     Err(msg) => Ok(format!("charset battery panicked: {msg}")),
     Ok(log) if !log.is_empty() => Ok(format!("{} deviations, e.g. {}", log.len(), log[..log.len().min(4)].join("; "))),
     Ok(_) => Err("charset battery: all expectations met".to_owned()),
+  }
+}
+
+
+/// `JwsAlgorithm::name()` against the registered names (RFC 7518 3.1, RFC 8037, RFC 8812), its serde form, Display and FromStr
+pub fn alg_names(_cex: &Value) -> Result<String, String> {
+  let want: [(JwsAlgorithm, &str); 15] = [
+    (JwsAlgorithm::HS256, "HS256"), (JwsAlgorithm::HS384, "HS384"), (JwsAlgorithm::HS512, "HS512"),
+    (JwsAlgorithm::RS256, "RS256"), (JwsAlgorithm::RS384, "RS384"), (JwsAlgorithm::RS512, "RS512"),
+    (JwsAlgorithm::PS256, "PS256"), (JwsAlgorithm::PS384, "PS384"), (JwsAlgorithm::PS512, "PS512"),
+    (JwsAlgorithm::ES256, "ES256"), (JwsAlgorithm::ES384, "ES384"), (JwsAlgorithm::ES512, "ES512"),
+    (JwsAlgorithm::ES256K, "ES256K"), (JwsAlgorithm::NONE, "none"), (JwsAlgorithm::EdDSA, "EdDSA"),
+  ];
+  let r = no_panic(move || {
+    let mut log = Vec::new();
+    for (a, n) in want {
+      let ser = serde_json::to_value(a).ok().and_then(|v| v.as_str().map(str::to_owned));
+      if a.name() != n || a.to_string() != n || ser.as_deref() != Some(n) || n.parse::<JwsAlgorithm>().ok() != Some(a) {
+        log.push(format!("{n}: name() = {:?}, Display = {:?}, serde = {ser:?}", a.name(), a.to_string()));
+      }
+    }
+    log
+  });
+  match r {
+    Err(msg) => Ok(format!("algorithm names panicked: {msg}")),
+    Ok(log) if !log.is_empty() => Ok(log.join("; ")),
+    Ok(_) => Err("every algorithm reports its registered name".to_owned()),
   }
 }
